@@ -5,7 +5,7 @@ from ..srcmodel import AnalysisError, site
 from ..astutil import dotted, const, params, local_defs, is_self_attr, calls_named, same_expr, walk_shallow, resolve_local
 from ..dataflow import expand, call_arg
 from ..effects import class_writers, is_const
-from ..cfg import build
+from ..cfg import build, truthy_atom
 from ..siblings import role_table, is_sender_test, eval_int
 from ..selftest import Mutant, Rewrite
 
@@ -447,7 +447,48 @@ def r6(tree, rep):
                    "told go, and never returned or closed")
 
 
+def r8_cancel_and_listener(tree, rep):
+    """(a) cancelling a negotiation (the deadline, a winner elsewhere) makes the connection deaf at once: Connection._cancel puts it into the
+    state in which _dataReceived ignores everything, in the same call that asks the transport to close - bytes already in flight when
+    the cancel happens must not be able to complete a handshake.  (b) the listener's Deferred is a contender of the race whenever a
+    listener exists - also when it has already fired (an inbound connection that won before connect() was called IS the result)"""
+    dr = tree.func(TR, "Connection", "_dataReceived")
+    g = build(dr, split=True)
+    terminal = []
+    for n in g.nodes(lambda st: isinstance(st, ast.If)):
+        t = g.stmt[n].test if not isinstance(g.stmt[n], tuple) else None
+        if isinstance(t, ast.Compare) and is_self_attr(t.left, "state") and len(t.ops) == 1 and isinstance(t.ops[0], ast.Eq) \
+                and isinstance(const(t.comparators[0]), str):
+            body = g.stmt[n].body
+            if len(body) == 1 and isinstance(body[0], ast.Return) and body[0].value is None:
+                terminal.append(const(t.comparators[0]))
+    if len(terminal) != 1:
+        raise AnalysisError("Connection._dataReceived: cannot identify the terminal (ignore everything) state: %s" % terminal)
+    cn = tree.func(TR, "Connection", "_cancel")
+    gc = build(cn)
+    sets = gc.nodes(lambda st: isinstance(st, ast.Assign) and any(is_self_attr(t, "state") for t in st.targets) and const(st.value) == terminal[0])
+    lose = gc.call_nodes(lambda c: (dotted(c.func) or "").endswith(".loseConnection"))
+    rep.check("C07.R8", "Connection._cancel enters the terminal state %r on every path, in the call that closes the transport" % terminal[0],
+              bool(sets) and gc.must_pass(sets) and bool(lose) and gc.must_pass(lose), site(cn, TR), key="C07.R8:_cancel:terminal-state",
+              what="a cancelled negotiation keeps reacting to bytes that are already in flight: a handshake arriving between loseConnection() and "
+                   "connectionLost() can still be answered with `go` after connect() has failed")
+    co = tree.func(TR, "Common", "_connect")
+    g2 = build(co, split=True)
+    apps = g2.call_nodes(lambda c: isinstance(c.func, ast.Attribute) and c.func.attr == "append" and c.args and is_self_attr(c.args[0], "_listener_d"))
+    ok = len(apps) == 1
+    if ok:
+        exists = truthy_atom(lambda e: is_self_attr(e, "_listener_d"))
+        # reachable whenever the listener exists: no edge other than "the listener does not exist" leads around it
+        r = g2.reach_feasible(g2.entry, avoid_nodes=set(apps), avoid_edges=set(g2.cond_edges(exists, False)))
+        ok = g2.exit not in r
+    rep.check("C07.R8", "Common._connect enters the listener's Deferred into the race whenever a listener exists (no further condition)", ok, site(co, TR),
+              key="C07.R8:_connect:listener-contender",
+              what="the listener's Deferred is left out of the race under some condition (e.g. when it has already fired): an inbound connection that was "
+                   "confirmed before connect() was called is not the result of connect()")
+
+
 def run(tree, rep, tier):
+    r8_cancel_and_listener(tree, rep)
     from .. import ctxmgr
     ctxmgr.check_with_blocks(tree, rep, "C07.R7", ["src/wormhole/transit.py"])
     from .. import sharedstate
